@@ -4,7 +4,7 @@
 From Coq Require Import List ZArith NArith Bool Lia.
 From BL Require Import Base.Bytes Reader.Entry Reader.EventStream Reader.RobustProofs Render.Time Render.TimeProofs
   Mser.Types Mser.Tag Mser.Visit Mser.RobustProofs Mser.BoundProofs Gen.SrcFacts.
-From BL Require Mser.TagProofs Mser.VisitProofs.
+From BL Require Mser.TagProofs Mser.VisitProofs Render.Message Render.SpecialProofs.
 Import ListNotations.
 
 Definition cfg_src := mkTC SrcFacts.time_floor SrcFacts.time_yy_nonneg SrcFacts.time_tz_wide.
@@ -60,14 +60,20 @@ Theorem C09_callbacks_bounded_without_backrefs : forall tag input, noback tag (N
 Proof.
   generalize (eq_refl : SrcFacts.visit_singular_visits_once = true). generalize SrcFacts.visit_singular_visits_once. intros b1 ->.
   generalize (eq_refl : SrcFacts.visit_singular_threshold = 32%N). generalize SrcFacts.visit_singular_threshold at 1. intros n1 _.
-  intros tag input. apply callbacks_bounded.
+  intros tag input. apply callbacks_bounded_plain.
 Qed.
 Print Assumptions C09_callbacks_bounded_without_backrefs.
+(** the same for the visitor bread prints with: ToStringVisitor (which takes whole strings in one callback) over PrettyPrinter::printStruct
+    (which renders a few well-known structs itself - each of them occupying at least four bytes), for every clock sync and date format *)
+Theorem C09_callbacks_bounded_for_the_printing_visitor : forall local tfmt cs tag input, noback tag 2048 tag = true ->
+  (callbacks_of (visit true (Render.Message.print_struct cfg_src local tfmt cs) 2048 tag tag input) <= 4 * length tag + 16 * length tag * length tag * length input)%nat.
+Proof. intros local tfmt cs tag input. apply callbacks_bounded. apply Render.SpecialProofs.print_struct_consumes. Qed.
+Print Assumptions C09_callbacks_bounded_for_the_printing_visitor.
 (** in particular for the tag of every loggable type of the C06 universe (names well formed, empty structs not shadowed by a definition in
     the complete tag) and EVERY input - not only serialized values of that type *)
 Theorem C09_callbacks_bounded_for_every_loggable_type : forall t input, Mser.TagProofs.ty_ok t = true -> Mser.VisitProofs.empties (tag t) t ->
   (callbacks_of (visit false nospec 2048 (tag t) (tag t) input) <= 4 * length (tag t) + 16 * length (tag t) * length (tag t) * length input)%nat.
-Proof. exact callbacks_bounded_typed. Qed.
+Proof. intros t input. apply callbacks_bounded_typed. exact nospec_consumes. Qed.
 Print Assumptions C09_callbacks_bounded_for_every_loggable_type.
 Example C09_bound_nonvacuous : SrcFacts.visit_max_recursion = 2048%N /\ noback ordinary_tag 2048 ordinary_tag = true /\ noback d6a_tag 2048 d6a_tag = false.
 Proof. split; [reflexivity|]. split; [exact ordinary_noback|exact d6a_has_backref]. Qed.
